@@ -908,7 +908,6 @@ Proof.
     apply Z.compare_lt_iff in Hlt. rewrite Hlt. reflexivity.
 Qed.
 
-(* @@F2END *)
 (* ---------- G. one Combiner level ---------- *)
 Lemma part_offsets_ge : forall ts o, Forall (fun x => o <= x) (part_offsets o ts).
 Proof.
